@@ -137,6 +137,9 @@ var kindType = map[string]descriptorpb.FieldDescriptorProto_Type{
 
 // buildDescriptor turns a generated schema into a real message descriptor
 // (nested messages, map entries, PATCH_REPLACE field options).
+// descSheetPatch: when set, the root message carries worksheet options with this patch type (load.Load reads it)
+var descSheetPatch tableaupb.Patch
+
 func buildDescriptor(m *gMsg) protoreflect.MessageDescriptor {
 	counter := 0
 	var build func(m *gMsg, name string) *descriptorpb.DescriptorProto
@@ -201,6 +204,11 @@ func buildDescriptor(m *gMsg) protoreflect.MessageDescriptor {
 		return dp
 	}
 	root := build(m, "Root")
+	if descSheetPatch != tableaupb.Patch_PATCH_NONE {
+		mo := &descriptorpb.MessageOptions{}
+		proto.SetExtension(mo, tableaupb.E_Worksheet, &tableaupb.WorksheetOptions{Name: "Root", Patch: descSheetPatch})
+		root.Options = mo
+	}
 	// resolve "@" placeholders to full names
 	var fix func(dp *descriptorpb.DescriptorProto, full string)
 	fix = func(dp *descriptorpb.DescriptorProto, full string) {
